@@ -331,7 +331,12 @@ impl<
         let (starts, ends) = (self.civil_starts(), self.civil_ends());
         assert!(!starts.is_empty(), "transitions is non-empty");
         let this_index = match starts.binary_search(&dtt) {
-            Err(0) => unreachable!("impossible to come before DateTime::MIN"),
+            // The first transition is a dummy at `Timestamp::MIN`, whose
+            // wall clock time is later than `DateTime::MIN` for almost every
+            // offset. Civil datetimes before it use the first transition's
+            // local time type. (Their instants are out of range, which is
+            // reported when the offset is applied.)
+            Err(0) => 0,
             Ok(i) => i,
             Err(i) => i.checked_sub(1).expect("i is non-zero"),
         };
